@@ -1239,6 +1239,19 @@ class EventBus:
             # Cancel the monitor task on timeout too
             monitor_task.cancel()
 
+            # A CancelledError the handler ended with by itself (e.g. it awaited a task that somebody else cancelled)
+            # while nobody is cancelling *this* task is an ordinary handler error. Passed on, it would be taken for the
+            # cancellation of the run loop (which then exits silently, leaving the event incomplete and the queue
+            # unserved) or of the parent handler that is processing this event inline.
+            this_task = asyncio.current_task()
+            handler_raised_it = (handler_task is None or handler_task.done()) and not (this_task and this_task.cancelling())
+            if handler_raised_it:
+                event.event_result_update(handler=handler, eventbus=self, error=e)
+                logger.error(
+                    f'❌ {self} Error in event handler {get_handler_name(handler)}({event}) -> \n{type(e).__name__}({e})\n{_log_filtered_traceback(e)}',
+                )
+                return None
+
             # Create a RuntimeError for timeout
             # TODO: figure out why it breaks when we try to switch to InterruptedError instead of asyncio.CancelledError
             handler_interrupted_error = asyncio.CancelledError(
